@@ -423,6 +423,17 @@ def taint_reaches_result(b, sources):
                     if t2 and t2["k"] == "call" and not _absorbed(t2, None) and t2["dest"]["local"] not in tainted:
                         tainted.add(t2["dest"]["local"])
                         src_of.setdefault(t2["dest"]["local"], origin)
+                    # a call under the branch that gets `&mut x` changes x only when the branch is taken (`data.push(0)`)
+                    if t2 and t2["k"] == "call" and not _absorbed(t2, None):
+                        for a2 in t2["args"]:
+                            pl2 = core.op_place(a2)
+                            if pl2 and b.local_ty(pl2["local"]).startswith("&mut"):
+                                for dd in b.defs().get(pl2["local"], []):
+                                    if dd[0] == "assign" and dd[3]["rv"]["k"] == "ref":
+                                        rl = dd[3]["rv"]["place"]["local"]
+                                        if rl not in tainted:
+                                            tainted.add(rl)
+                                            src_of.setdefault(rl, origin)
         for x, t in b.terms("call"):
             args_l = [core.op_place(a)["local"] for a in t["args"] if core.op_place(a)]
             hit = [l for l in args_l if l in tainted]
